@@ -1,8 +1,9 @@
 """C17 — culture routing and model caching never serve the wrong model.
 
 Tie between RTV.Model.Factory (Lean driver) and the working tree:
-  unit      Culture.map_to_nearest_language vs `mapToNearest` (both candidate tests: the code as it is and the
-            repaired one — the run decides which variant the tree follows), ModelFactory.register_model vs
+  unit      Culture.map_to_nearest_language vs `mapToNearest` (both candidate tests: language tags compared = the
+            code as it is since the fix, and startswith = the code before it — the run decides which variant the
+            tree follows; following the startswith variant is reported with the witnesses 'f', 'z-x', 'd'), ModelFactory.register_model vs
             `register`, constructor option validation vs `step (.construct …)`
   pipeline  one seeded request history per run against real recogniser objects (instrumented subclasses: every
             registered constructor tags the model it builds with (kind, type, culture, options, allocation serial));
@@ -20,8 +21,10 @@ LEVEL = 'proof'
 PROPS_MODULES = ['RTV.Props.C17']
 GEN = ['factory', 'chartables']
 REQUIRED_THEOREMS = ['map_supported_any_case', 'map_supported_any_case_ascii', 'map_unique_language',
-                     'map_unique_language_gen', 'map_other_falls_back_partial', 'map_other_falls_back_repaired',
-                     'map_other_falls_back_false_f', 'map_other_falls_back_false_zx', 'map_other_falls_back_false_d',
+                     'map_other_falls_back',
+                     # regression section (candidate test before the fix: startswith)
+                     'map_unique_language_startswith_gen', 'map_other_falls_back_startswith_partial',
+                     'startswith_variant_false_f', 'startswith_variant_false_zx', 'startswith_variant_false_d',
                      'prefixIsTag_of_tag_or_none', 'no_model_falls_back', 'other_code_gets_english',
                      'gen_no_models_for_ko_tr_enstar', 'gen_types_owned_table', 'gen_english_registered_table',
                      'gen_regs_supported_table', 'gen_unique_tag', 'cache_key_separation', 'same_key_same_object',
@@ -130,7 +133,8 @@ def unit_map(ctx, st):
     mism_cur = [i for i in range(len(inputs)) if enc[i] != cur[i]]
     mism_rep = [i for i in range(len(inputs)) if enc[i] != rep[i]]
     repaired = len(mism_rep) < len(mism_cur)
-    ctx.extra['map_variant_followed'] = 'repaired (language tag compared)' if repaired else 'current (startswith)'
+    ctx.extra['map_variant_followed'] = 'language tag compared (the code since the fix)' if repaired else \
+        'startswith (the code before the fix: REGRESSION)'
     ctx.extra['map_inputs_where_variants_differ'] = sum(1 for a, b in zip(cur, rep) if a != b)
     model = rep if repaired else cur
     for i in (mism_rep if repaired else mism_cur)[:50]:
@@ -469,6 +473,8 @@ def pipeline(ctx, st, repaired):
         t = meta['type']
         if t not in {tt for tt, _ in regs}:
             continue    # foreign model type: outside the property's quantifier (model-vs-implementation only)
+        if meta['fb'] is not True and meta['fb'] is not False:
+            continue    # the property speaks of fallback enabled / disabled: non-bool flags are model-vs-implementation only
         s = asked_string(meta)
         if meta['cjk'] and meta['culture'] and (meta['culture'].lower().startswith('zh-') or
                                                  meta['culture'].lower().startswith('ja-')):
@@ -558,7 +564,8 @@ def correspond(ctx):
     if not repaired and any(r['answers_in'] in ('fr-fr', 'zh-cn', 'de-de') for r in replay):
         examples = sorted({w[0] for w in wrong if w[0] is not None}, key=lambda s: (len(s), s))[:12]
         ctx.report('property', 'culture-prefix-startswith',
-                   'map_to_nearest_language tests supported.startswith(prefix): %d of the unit inputs (e.g. %r) and %d '
+                   'REGRESSION to the repaired defect: map_to_nearest_language tests supported.startswith(prefix) '
+                   '(the tree matches the startswith variant of the model): %d of the unit inputs (e.g. %r) and %d '
                    'history requests are routed to a culture they do not denote; %s' % (
                        len(wrong), examples, len(prefix_findings), replay[0]),
                    failing_input={'call': replay[0]['call'], 'observed': replay[0]['values'],
